@@ -22,7 +22,7 @@ class WorkBudgetExceeded(BaseException):
 
 
 class Meter:
-    __slots__ = ('lines', 'seconds', 'aborted', 'result', 'exc')
+    __slots__ = ('lines', 'seconds', 'aborted', 'result', 'exc', 'memory')
 
     def __init__(self):
         self.lines = 0
@@ -151,6 +151,37 @@ def measure(fn, max_lines=10 ** 7, max_seconds=2.0, per_line=25e-6):
     Wall-clock allowance = max_seconds + per_line * (lines executed): the metering overhead itself is a few
     microseconds per line, so big legitimate inputs (a 10 kB bag of 1024 cells = 220 k lines) are not cut on a loaded machine,
     while an input of a few hundred bytes (a few thousand lines at most) still has to finish within ~max_seconds."""
-    if hasattr(sys, 'monitoring'):
-        return _measure_monitoring(fn, max_lines, max_seconds, per_line)
-    return _measure_settrace(fn, max_lines, max_seconds, per_line)
+    # memory: while the library call runs, the address space may grow by at most MEM_CAP bytes - an allocation sized by a
+    # count field of the input (`[None] * cells_num`) then fails with MemoryError (recorded in m.exc, m.memory = True) instead
+    # of taking the whole machine down (line and time budgets do not see one huge C-level allocation)
+    import resource
+    soft, hard = resource.getrlimit(resource.RLIMIT_AS)
+    cur = _vm_size()
+    capped = False
+    if cur:
+        try:
+            resource.setrlimit(resource.RLIMIT_AS, (cur + MEM_CAP, hard))
+            capped = True
+        except (ValueError, OSError):
+            pass
+    try:
+        if hasattr(sys, 'monitoring'):
+            m = _measure_monitoring(fn, max_lines, max_seconds, per_line)
+        else:
+            m = _measure_settrace(fn, max_lines, max_seconds, per_line)
+    finally:
+        if capped:
+            resource.setrlimit(resource.RLIMIT_AS, (soft, hard))
+    m.memory = isinstance(m.exc, MemoryError)
+    return m
+
+
+MEM_CAP = 1 << 30
+
+
+def _vm_size():
+    try:
+        with open('/proc/self/statm') as f:
+            return int(f.read().split()[0]) * os.sysconf('SC_PAGE_SIZE')
+    except Exception:
+        return 0
